@@ -170,7 +170,7 @@ def buffer_events(body, buf, db=None, prim=None, _frames=(), _depth=0, _loops=()
             if consts[i] is None and _frames:
                 consts[i] = _const_through_frames(body, a, _frames)
         ev.append({"bi": bi, "callee": d, "short": short(d), "consts": consts, "args": args,
-                   "in_loop": bool(here), "loops": here, "line": t["span"]["line"], "body": body, "frames": _frames})
+                   "in_loop": bool(here), "loops": here, "line": t["span"]["line"], "body": body, "frames": _frames, "buf": buf})
     return ev
 
 
